@@ -284,6 +284,22 @@ func planC10(prop string, seed uint64, tier string, idx int) *Plan {
 				break
 			}
 			g.add(g.readOp(repo))
+		case 9:
+			// a stored blob is uploaded again (a plain session, no digest on the POST) shortly before its grace period ends,
+			// and read when the period of the first upload is over but not that of the second
+			if gr := g.p.Knobs.grace().Milliseconds(); gr > 0 && gr <= 60000 && (g.p.Knobs.GCFreqMs < 0 || g.p.Knobs.freq().Milliseconds()*300 > gr) {
+				g.add(g.blobOp(repo, extra, true))
+				g.markBlob(repo, extra)
+				g.add(Op{K: "sleep", Ms: gr * 6 / 10})
+				op := g.blobOp(repo, extra, true)
+				op.Mode, op.Chunks = "put", nil
+				g.add(op)
+				g.add(Op{K: "sleep", Ms: gr * 6 / 10})
+				g.add(Op{K: "gc", Repo: repo})
+				g.add(Op{K: "get", Mode: "blob", Repo: repo, Obj: extra})
+				break
+			}
+			g.gcHistoryOp(repo, images, indexes, arts, extra)
 		default:
 			g.gcHistoryOp(repo, images, indexes, arts, extra)
 		}
